@@ -463,9 +463,14 @@ def cbmc_job(u, sp, job, workdir, tier):
     errs = [o for o in res["obligations"] if o["status"] not in ("SUCCESS", "FAILURE")]
     hard = [o for o in res["obligations"] if o["status"] == "FAILURE" and not o["description"].startswith("vt_cover:")]
     unw = [o for o in hard if ".unwind." in o["id"] or "unwinding assertion" in o["description"]]
-    if unw:
+    if unw and len(unw) == len(hard):
         res["reason"] = "unwinding bound insufficient (not a violation): " + "; ".join(o["id"] for o in unw[:4])
         return res
+    if unw:
+        # other obligations fail with a counterexample inside the bound: those are definite; the unwinding
+        # assertion itself is not reported as a violation
+        res["obligations"] = [o for o in res["obligations"] if o not in unw]
+        res["note_unwind"] = [o["id"] for o in unw]
     if errs and not hard:
         res["reason"] = "back end returned status %s for %d obligations (solver error / resource limit), e.g. %s" % (errs[0]["status"], len(errs), errs[0]["id"])
         return res
